@@ -264,12 +264,18 @@ Definition outcome_eqb (a b : outcome) : bool :=
 
 Record mobs := mkMobs { m_out : outcome; m_fds : Z; m_gor : Z; m_opened : nat; m_spawned : nat }.
 
-Definition observe40 (fs0 : list (option bytes)) (body : list stmt) : option mobs :=
+(* the same with fd 2 holding the very port of fd 1 (as with the default dummy
+   ports of Evaler.Eval, where stdout and stderr are one *Port) *)
+Definition T0alias : table :=
+  [Some (mkPort (Some HNull) ChClosedIn); Some (mkPort (Some (HSink 0)) (ChVal 0));
+   Some (mkPort (Some (HSink 0)) (ChVal 0))].
+
+Definition observe40 (alias : bool) (fs0 : list (option bytes)) (body : list stmt) : option mobs :=
   let s := s0 fs0 in
   let mk o s' := Some (mkMobs o (Z.of_nat (live_fds s') - Z.of_nat (live_fds s))%Z
                              (live_gor s' - live_gor s)%Z
                              (l_fopen (s_led s') + l_popen (s_led s')) (l_spawn (s_led s'))) in
-  match run_prog 64 T0 body s with
+  match run_prog 64 (if alias then T0alias else T0) body s with
   | Ok s' => mk OOk s'
   | Exc _ s' => mk OExc s'
   | Crash => Some (mkMobs OCrash 0 0 0 0)
@@ -281,6 +287,7 @@ Record case := mkCase {
   c_fs : list (option bytes);
   c_prog : list stmt;
   c_reps : nat;
+  c_alias12 : bool;         (* ports 1 and 2 of the evaluation were one port object *)
   c_out : outcome;          (* outcome of every repetition (the runner reports a
                                Direct violation itself when they differ) *)
   c_fd_growth : Z;          (* open descriptors after - before, all repetitions *)
@@ -292,7 +299,7 @@ Definition check_C40 (c : case) : bool :=
 
 Definition judge1 (c : case) : N :=
   let corr :=
-    match observe40 (c_fs c) (c_prog c) with
+    match observe40 (c_alias12 c) (c_fs c) (c_prog c) with
     | Some m => outcome_eqb (m_out m) (c_out c)
                 && (match m_out m with OCrash => true | _ => Z.eqb (m_fds m) 0 && Z.eqb (m_gor m) 0 end)
     | None => false
